@@ -7,6 +7,7 @@ from ..expand import clone
 from ..cfg import CFG
 from ..loops import dotted
 from ..nf import NF, Scope, Poly, parse_expr
+from ..sem import same_ingredients
 from ..repo import Repo, loc, short, AnalysisError, positional_params, param_names, bind_call
 from ..sem import guard_literals, spec, stmt_calls, on_every_path_once
 
@@ -339,6 +340,11 @@ def _add_sample_effects(ck, repo, nf):
             if not okv and "truncated" in tval and "terminated" not in tval and not tval.startswith("ite(") and tval != "sample['truncated']":
                 raise AnalysisError(f"{site}: tail value `{tval}` not recognised")
             ob("R3-tail", "truncated-disables", okv, f"[{tag}] tail value = {tval}", "truncated tails must be masked out (0), terminated tails enabled (1)")
+            if tidx not in TAIL_IDX:
+                import re as _re
+                toks = lambda t_: set(_re.findall(r"[A-Za-z_][A-Za-z_0-9]*", t_))
+                if not toks(tidx) <= set().union(*[toks(t_) for t_ in TAIL_IDX]):
+                    raise AnalysisError(f"{site}: tail index `{tidx[:120]}` (unrecognised form)")
             ob("R3-tail", "last-min(len,horizon)-slots", tidx in TAIL_IDX, f"[{tag}] tail index = {tidx}", f"must be the last min(episode_timesteps, horizon) written slots: {sorted(TAIL_IDX)[0]}")
             # the clear of the written slot precedes the tail store (which may re-enable that very slot)
             pos_tail = masks.index(tails[0])
@@ -472,15 +478,30 @@ def _sampling_rules(ck, repo, nf):
         sw.body, sw.orelse = ifn[0].ast.orelse, ifn[0].ast.body
         ifn[0].ast_swapped = sw
     ck.need(len(ifn) == 1, f"{CQ}.sample_batch: include_intermediate branch not found")
-    iv = nf.name("indices", s4, ifn[0].id).canon()
-    want = nf.poly(parse_expr("(self._sample_idx(batch_size, rng)[:, np.newaxis] + np.arange(horizon)[np.newaxis]) % self.current_len"), Scope(None, mi, s4.env, "w"), None).canon()
+    # the window index matrix: what every field is gathered at in the with-intermediate view (located by its use, not by its name)
+    with_branch = getattr(ifn[0], 'ast_swapped', ifn[0].ast).body
+    per_key_w = _field_indices(c4, with_branch, f4)
+    if not per_key_w:
+        raise AnalysisError(f"{CQ}.sample_batch: gather of the with-intermediate view not found (unrecognised idiom)")
+    wforms = {nf.poly(ix, s4, at).canon() for ix, at in per_key_w.values()}
+    ck.need(len(wforms) == 1, f"{CQ}.sample_batch: fields of the with-intermediate view are gathered at different indices {sorted(wforms)[:2]} (unrecognised idiom)")
+    W_ast, W_at = next(iter(per_key_w.values()))
+    ivp = nf.poly(W_ast, s4, W_at)
+    iv = ivp.canon()
+    wantp = nf.poly(parse_expr("(self._sample_idx(batch_size, rng)[:, np.newaxis] + np.arange(horizon)[np.newaxis]) % self.current_len"), Scope(None, mi, s4.env, "w"), None)
+    want = wantp.canon()
     ok = iv == want
+    if not ok and not same_ingredients(ivp, wantp, ("buffer_size",)):
+        raise AnalysisError(f"{CQ}.sample_batch: window indices `{iv[:120]}` (unrecognised form)")
     ck.ob("R5-window-indices", CQ + ".sample_batch", "consecutive-mod-len", ok, f"indices = {iv}", "" if ok else f"must be {want}: consecutive slots from the sampled start, wrapped at current_len (buffer_size would read never-written slots of a partly filled buffer)", loc(mi, f4))
     # no-intermediate view: which index gathers each field (key-specialised partial evaluation of the branch)
     per_key = _field_indices(c4, getattr(ifn[0], 'ast_swapped', ifn[0].ast).orelse, f4)
     ck.need(per_key, f"{CQ}.sample_batch: per-field index selection of the no-intermediate view not found (unrecognised idiom)")
-    w_first = nf.poly(parse_expr("indices[:, 0]"), s4, ifn[0].id).canon()
-    w_last = nf.poly(parse_expr("indices[:, -1]"), s4, ifn[0].id).canon()
+
+    def col(which):
+        sl = ast.Subscript(value=W_ast, slice=ast.Tuple(elts=[ast.Slice(lower=None, upper=None, step=None), ast.Constant(value=0) if which == 0 else ast.UnaryOp(op=ast.USub(), operand=ast.Constant(value=1))], ctx=ast.Load()), ctx=ast.Load())
+        return nf.poly(ast.fix_missing_locations(ast.copy_location(sl, W_ast)), s4, W_at).canon()
+    w_first, w_last = col(0), col(-1)
     w_all = iv
     start_c = nf.poly(parse_expr("self._sample_idx(batch_size, rng)"), Scope(None, mi, s4.env, "w"), None).canon()
     REDUCERS = ("mod(", "remainder(", "fmod(", "where(", "take(", "divmod(")
